@@ -2231,7 +2231,7 @@ def xtext_encode(s, errors=None):
     r = []
     for ch in iterbytes(s):
         o = ord(ch)
-        if ch == "+" or ch == "=" or o < 33 or o > 126:
+        if o in (0x2B, 0x3D) or o < 33 or o > 126:
             r.append(networkString(f"+{o:02X}"))
         else:
             r.append(bytes((o,)))
